@@ -134,10 +134,10 @@ func c11Ignored(r *Run) {
 						continue
 					}
 					if obs.PanicAt >= 0 {
-						small := shrinkHistory(table, hist, "combine/panic")
+						small := shrinkHistory(table, hist, map[bool]string{false: "combine/panic", true: "combine/never-returns"}[obs.Hung])
 						t, h := compactHistory(table, small)
 						o := runCombine(t, h)
-						r.Fail(fmt.Sprintf("combiner-panic/ignored-run/key=%d,total=%d", rm, tm), "the combiner panicked after a run of segments it had to ignore (one combiner instance)",
+						r.Fail(hangClass(obs, fmt.Sprintf("combiner-panic/ignored-run/key=%d,total=%d", rm, tm)), "the combiner panicked or did not return after a run of segments it had to ignore (one combiner instance)",
 							histInput(t, h), fmt.Sprintf("panic at input %d of %d (cut down from %d arrivals): %s", o.PanicAt+1, len(h), len(hist), o.PanicMsg), "a value or an ignored segment")
 						continue
 					}
@@ -162,10 +162,10 @@ func c11Ignored(r *Run) {
 			in := fmt.Sprintf("ignored-run aimed at a message in progress n=%d total=%d", n, tm)
 			r.Count(in, true, fmt.Sprintf("run of ignored segments on one combiner/n=%s", bucketK(n)))
 			if obs.PanicAt >= 0 {
-				small := shrinkHistory(table, hist, "combine/panic")
+				small := shrinkHistory(table, hist, map[bool]string{false: "combine/panic", true: "combine/never-returns"}[obs.Hung])
 				t, h := compactHistory(table, small)
 				o := runCombine(t, h)
-				r.Fail(fmt.Sprintf("combiner-panic/ignored-run/in-progress,total=%d", tm), "the combiner panicked on malformed segments under the key of a message in progress",
+				r.Fail(hangClass(obs, fmt.Sprintf("combiner-panic/ignored-run/in-progress,total=%d", tm)), "the combiner panicked or did not return on malformed segments under the key of a message in progress",
 					histInput(t, h), fmt.Sprintf("panic at input %d of %d (cut down from %d arrivals): %s", o.PanicAt+1, len(h), len(hist), o.PanicMsg), "a value or an ignored segment")
 				continue
 			}
